@@ -469,7 +469,7 @@ type caseGen struct {
 	rootKeys [][]byte
 	intKeys  [][]byte
 	moreKeys [][]byte // further signer keys used in this case (other roots, foreign signers)
-	extras   []int // objects of earlier scenarios, usable as distractors
+	extras   []int    // objects of earlier scenarios, usable as distractors
 }
 
 // emitCert writes a cert line with its record as oracle and returns the object index
